@@ -171,11 +171,16 @@ struct Cfg {
     /// sequence number every source starts from ('+1' letters count up from it): 1000, or 65534
     /// so that the second '+1' of a source crosses the 16-bit wrap
     seq_base: u16,
+    /// which second octets the packets carry (the RTP / RTCP classification looks at that octet):
+    /// 0 = RTP payload type 0, RTCP packet type 200 (SR); 1 = RTP payload type 71 (octet 199 with the
+    /// marker: just below the RTCP range), RTCP type 211 (top of the range); 2 = RTP payload type 84
+    /// (octet 212 with the marker: just above), RTCP type 209
+    wire: u8,
 }
 impl Cfg {
     fn json(&self) -> Value {
         json!({"probation": self.prob, "ssrc_known": self.ssrc_known,
-               "remote_set": self.remote_set, "rtcp_set": self.rtcp_set, "seq_base": self.seq_base})
+               "remote_set": self.remote_set, "rtcp_set": self.rtcp_set, "seq_base": self.seq_base, "wire": self.wire})
     }
     fn from_json(v: &Value) -> Option<Cfg> {
         Some(Cfg {
@@ -184,6 +189,7 @@ impl Cfg {
             remote_set: v["remote_set"].as_bool()?,
             rtcp_set: v["rtcp_set"].as_bool()?,
             seq_base: v["seq_base"].as_u64().unwrap_or(SEQ_BASE as u64) as u16,
+            wire: v["wire"].as_u64().unwrap_or(0) as u8,
         })
     }
 }
@@ -194,11 +200,17 @@ fn all_cfgs(thorough: bool) -> Vec<Cfg> {
         for ssrc_known in [true, false] {
             for remote_set in [true, false] {
                 for rtcp_set in [false, true] {
-                    v.push(Cfg { prob, ssrc_known, remote_set, rtcp_set, seq_base: SEQ_BASE });
+                    v.push(Cfg { prob, ssrc_known, remote_set, rtcp_set, seq_base: SEQ_BASE, wire: 0 });
+                    // the classification-boundary dimension: all configurations in thorough; in quick
+                    // immediate commit and two probation lengths with the remote address set
+                    if thorough || (remote_set && matches!(prob, 0 | 2 | 6)) {
+                        v.push(Cfg { prob, ssrc_known, remote_set, rtcp_set, seq_base: SEQ_BASE, wire: 1 });
+                        v.push(Cfg { prob, ssrc_known, remote_set, rtcp_set, seq_base: SEQ_BASE, wire: 2 });
+                    }
                     // the wrap dimension: all configurations in thorough, the SSRC-filtered ones
                     // without a separate RTCP address in quick
                     if thorough || (ssrc_known && !rtcp_set) {
-                        v.push(Cfg { prob, ssrc_known, remote_set, rtcp_set, seq_base: 65534 });
+                        v.push(Cfg { prob, ssrc_known, remote_set, rtcp_set, seq_base: 65534, wire: 0 });
                     }
                 }
             }
@@ -244,6 +256,7 @@ struct Pkt {
     kind: u8,
     seq: u16,
     marker: bool,
+    wire: u8,
 }
 
 struct Sys {
@@ -251,6 +264,7 @@ struct Sys {
     _keep: Arc<Noop>,
     last: [u16; 3],
     buf: Vec<u8>,
+    wire: u8,
 }
 
 impl Sys {
@@ -268,7 +282,7 @@ impl Sys {
         }
         let keep = NOOP.with(|n| n.clone());
         conn.set_rtp_receiver(keep.clone());
-        Sys { conn, _keep: keep, last: [cfg.seq_base; 3], buf: Vec::new() }
+        Sys { conn, _keep: keep, last: [cfg.seq_base; 3], buf: Vec::new(), wire: cfg.wire }
     }
 
     /// What the harness will send for a packet letter (pure; does not advance bookkeeping).
@@ -287,7 +301,7 @@ impl Sys {
             K_X => (OTHER_SSRC_SEQ, false),
             _ => (0, false),
         };
-        Some(Pkt { src, kind, seq, marker })
+        Some(Pkt { src, kind, seq, marker, wire: self.wire })
     }
 
     fn apply(&mut self, l: u8) -> Option<Pkt> {
@@ -308,9 +322,17 @@ impl Sys {
             }
             _ => {
                 let p = self.plan(l).unwrap();
-                let bytes: Bytes = if p.kind == K_R {
+                let bytes: Bytes = if p.kind == K_R && p.wire == 0 {
                     // RTCP SR: V=2, PT=200, length 6 words, sender SSRC = expected SSRC
                     Bytes::from_static(&RTCP_SR)
+                } else if p.kind == K_R {
+                    // RTCP of type 211 / 209: sender SSRC and the word an RTP reader would take for the
+                    // SSRC both equal the expected SSRC (as the summarised SSRC of an RSI packet does)
+                    let mut v = RTCP_SR.to_vec();
+                    v[1] = if p.wire == 1 { 211 } else { 209 };
+                    v[4..8].copy_from_slice(&EXPECTED_SSRC.to_be_bytes());
+                    v[8..12].copy_from_slice(&EXPECTED_SSRC.to_be_bytes());
+                    Bytes::from(v)
                 } else {
                     rtp_packet(p)
                 };
@@ -368,7 +390,7 @@ fn build_rtp(p: Pkt) -> Vec<u8> {
     let ssrc = if p.kind == K_X { OTHER_SSRC } else { EXPECTED_SSRC };
     let mut v = vec![0xAAu8; 16];
     v[0] = 0x80;
-    v[1] = if p.marker { 0x80 } else { 0x00 }; // PT 0
+    v[1] = (if p.marker { 0x80 } else { 0x00 }) | [0u8, 71, 84][p.wire as usize % 3];
     v[2..4].copy_from_slice(&p.seq.to_be_bytes());
     v[4..8].copy_from_slice(&(p.seq as u32).wrapping_mul(160).to_be_bytes());
     v[8..12].copy_from_slice(&ssrc.to_be_bytes());
@@ -384,7 +406,9 @@ thread_local! {
 }
 
 fn rtp_packet(p: Pkt) -> Bytes {
-    let slot = if p.kind == K_X {
+    let slot = if p.wire != 0 {
+        None
+    } else if p.kind == K_X {
         Some(PKT_CACHE_N * 2)
     } else if p.seq >= PKT_CACHE_LO && ((p.seq - PKT_CACHE_LO) as usize) < PKT_CACHE_N {
         Some((p.seq - PKT_CACHE_LO) as usize * 2 + p.marker as usize)
